@@ -307,7 +307,7 @@ func TestC24(t *testing.T) {
 	if id == 0 {
 		t.Fatalf("no TLC cases")
 	}
-	n := vt.Pick(60, 1000)
+	n := vt.Pick(60, 600)
 	for i := 0; i < n; i++ {
 		id++
 		runGateCase(t, tr, id, vt.Case{"max": 1 + rnd.Intn(3), "n": 2 + rnd.Intn(7), "sseed": rnd.Int63n(1 << 40), "eps": epChoices[rnd.Intn(len(epChoices))],
